@@ -67,11 +67,17 @@ fn random_plan(g: &mut G, allow_per_test_cfg: bool, finite_limit: bool) -> Plan 
             Plan::new(Fate::Slow {
                 ns: *g.pick(&[MS, 100 * MS, SEC, 3 * SEC, 30 * SEC, 5000 * SEC]),
             })
+        } else if r < 98 {
+            Plan::new(Fate::CloseThenLinger {
+                ns: Some(*g.pick(&[MS, SEC, 100 * SEC])),
+            })
         } else {
             Plan::new(Fate::Hang)
         };
         plan.lines = g.below(5) as usize;
-        if !allow_per_test_cfg && (plan.cfg != TestCfg::default() || plan.fate == Fate::Detached) {
+        if !allow_per_test_cfg
+            && (plan.cfg != TestCfg::default() || plan.fate == Fate::Detached || matches!(plan.fate, Fate::CloseThenLinger { .. }))
+        {
             continue;
         }
         if plan.fate == Fate::Hang && !finite_limit && plan.cfg.timeout_ns.is_none() {
